@@ -14,7 +14,7 @@ from fractions import Fraction
 from types import SimpleNamespace as NS
 
 from . import gen, sim, tlc
-from .common import MachineryFailure, Result, bind_repo, rat, rats, seed
+from .common import Guard, MachineryFailure, Result, bind_repo, rat, rats, seed
 
 
 def _lst(x):
@@ -125,16 +125,19 @@ def replay_vectors(res: Result, vectors: list):
         s = np.array([float(Fraction(x)) for x in vec['s']])
         util = float(Fraction(vec['util']))
         want = [Fraction(x) for x in vec['annual']]
-        got = [SurfacePlant.integrate_time_series_slice(s, y, n, util) for y in range(L)]
-        scale = max([abs(x) for x in want] + [Fraction(1)])
-        ok = all(abs(Fraction(float(g)) - w) <= tol * scale for g, w in zip(got, want))
-        # the same series through the annual roll-up (gross = net = heat = extracted = pumping = s)
-        a = SurfacePlant.annual_electricity_pumping_power(NS(), L, EndUseOptions.COGENERATION_TOPPING_EXTRA_HEAT, s, n, util, s, s, s, s)
-        for arr in a:
-            ok = ok and all(abs(Fraction(float(g)) - w) <= tol * scale for g, w in zip(arr, want))
-        rem = SurfacePlant.remaining_reservoir_heat_content(NS(), 1000.0, np.array([float(x) for x in want]))
-        wrem = [Fraction(x) for x in vec['remaining']]
-        ok = ok and all(abs(Fraction(float(g)) - w) <= tol * 1000 for g, w in zip(rem, wrem))
+        got, rem, ok = [], [], False
+        with Guard() as gd:
+            got = [SurfacePlant.integrate_time_series_slice(s, y, n, util) for y in range(L)]
+            scale = max([abs(x) for x in want] + [Fraction(1)])
+            ok = len(got) == len(want) and all(abs(Fraction(float(g)) - w) <= tol * scale for g, w in zip(got, want))
+            # the same series through the annual roll-up (gross = net = heat = extracted = pumping = s)
+            a = SurfacePlant.annual_electricity_pumping_power(NS(), L, EndUseOptions.COGENERATION_TOPPING_EXTRA_HEAT, s, n, util, s, s, s, s)
+            for arr in a:
+                ok = ok and all(abs(Fraction(float(g)) - w) <= tol * scale for g, w in zip(arr, want))
+            rem = SurfacePlant.remaining_reservoir_heat_content(NS(), 1000.0, np.array([float(x) for x in want]))
+            wrem = [Fraction(x) for x in vec['remaining']]
+            ok = ok and all(abs(Fraction(float(g)) - w) <= tol * 1000 for g, w in zip(rem, wrem))
+        ok = ok and gd.err is None
         res.count('m2_vectors_replayed')
         if not ok:
             bad += 1
